@@ -141,9 +141,13 @@ pub fn run_analyze_dir(root: &Path, sel: &Selection) -> Result<Findings, String>
         for (k, v) in qa::analyze_dir(&r, sel.qas.clone()) {
             f.entry(pat_of_qa(&k)).or_default().extend(v);
         }
+        // a pattern without findings and a file with an empty line set are no findings: whether such keys / pairs are
+        // present in the returned map is not something any property fixes
         for v in f.values_mut() {
+            v.retain(|(_, ls)| !ls.is_empty());
             v.sort();
         }
+        f.retain(|_, v| !v.is_empty());
         f
     })
 }
